@@ -12,7 +12,7 @@ for pid in "$@"; do
   echo "== $pid against seeded tree $name" | tee "$out/check_$pid.txt"
   # evidence of the registered checks must not be overwritten by experiment runs
   cp evidence/$pid.json /tmp/evidence_$pid.bak 2>/dev/null
-  VERIF_REPO=/tmp/seedrepo timeout 5400 bin/check $pid 2>&1 | grep -E "VIOLATION|KNOWN-FINDING|->|done:" | head -40 | tee -a "$out/check_$pid.txt"
+  VERIF_REPO=/tmp/seedrepo timeout 5400 bin/check $pid 2>&1 | grep -E "^VIOLATION|->|done:" | head -40 | tee -a "$out/check_$pid.txt"
   cp /tmp/evidence_$pid.bak evidence/$pid.json 2>/dev/null
 done
 git -C /tmp/seedrepo checkout -q -- .
